@@ -15,7 +15,7 @@ EXPLANATION = ('What the code asks the filesystem for, on every path: (R09.1) th
                'follows; (R09.4) the insertion stamp is utimens(source, atime = from_unix_time(secs(now) - D, nanos(now)), mtime = '
                'now) with D a constant >= 3 s; (R09.5) put on an existing key touches it (= R04.2); (R09.7) in put, the only effects whose object is (directory + key) are the exclusive link and the atime touch: no rename onto it, utimens with an mtime, chmod, writable open or unlink; (R09.8) after the source received its insertion stamp no other file of the directory is re-stamped before the publish (maintenance runs before the stamp, so the new entry is the newest); (R09.6) the read mark maintenance tests is true for atime == mtime, which is what a touch may leave on a coarse-granularity filesystem. Timestamp behaviour of real '
                'filesystems is not decided.')
-FLOORS = {'R09.8': 2, 'R09.7': 3, 'R09.6': 1, 'R09.1': 8, 'R09.2': 2, 'R09.3': 4, 'R09.4': 2, 'R09.5': 1}
+FLOORS = {'R09.9': 4, 'R09.8': 2, 'R09.7': 3, 'R09.6': 1, 'R09.1': 8, 'R09.2': 2, 'R09.3': 4, 'R09.4': 2, 'R09.5': 1}
 
 LOOKUPS = ['plain::Cache::get', 'plain::Cache::touch', 'sharded::Cache::get', 'sharded::Cache::touch', 'raw_cache::touch',
            'raw_cache::ensure_file_touched']
@@ -241,6 +241,14 @@ def r09_8(ctx):
     return out
 
 
+def r09_9(ctx):
+    """a put onto a key that already lives in the *other* candidate shard must find it (and touch it) instead of
+    inserting a second copy: the sharded writes probe the alternate shard on the filesystem before every publish,
+    whatever the in-memory load estimates say (shared with R11.2)."""
+    from rules import c11
+    return [inst('R09.9', i['key'].split('|', 1)[1], i['ok'], i['detail'], path=i.get('path') or []) for i in c11.r11_2(ctx)]
+
+
 def run(ctx):
     from runner import collect
-    return collect(ctx, r09_1, r09_2, r09_3, r09_4, r09_5, r09_6, r09_7, r09_8)
+    return collect(ctx, r09_1, r09_2, r09_3, r09_4, r09_5, r09_6, r09_7, r09_8, r09_9)
